@@ -703,3 +703,105 @@ Proof.
   - intros e [s [[<-|[]] [<-|[<-|[]]]]] H; [discriminate H | discriminate H].
   - vm_compute. repeat constructor; simpl; intuition discriminate.
 Qed.
+
+(* ---------- openapi:generate=false: mounted = visible + hidden ---------- *)
+
+Lemma in_sel_assigns keep ms r a :
+  In a (server_assigns (mkd (map (sel_service keep) ms) r)) <->
+  exists s, In s ms /\
+    ((exists e, In e (ms_eps s) /\ keep (ms_gen s) (me_gen e) = true /\ In a (ep_srv (me_ep e))) \/
+     (exists f p, In f (ms_files s) /\ keep (ms_gen s) (mf_gen f) = true /\ In p (fpaths (mf_fs f)) /\ In a (fs_srv p))).
+Proof.
+  unfold server_assigns; simpl. rewrite in_flat_map. split.
+  - intros [s' [Hs H]]. apply in_map_iff in Hs. destruct Hs as [s [<- Hs]]. exists s. split; [assumption|].
+    unfold svc_srv, svc_files, sel_service in H; simpl in H. rewrite in_app_iff, !in_flat_map in H. destruct H as [[e' [He H]]|[p [Hp H]]].
+    + apply in_map_iff in He. destruct He as [e [<- He]]. apply filter_In in He. left. exists e. tauto.
+    + apply in_flat_map in Hp. destruct Hp as [f' [Hf Hp]]. apply in_map_iff in Hf. destruct Hf as [f [<- Hf]]. apply filter_In in Hf.
+      right. exists f, p. tauto.
+  - intros [s [Hs H]]. exists (sel_service keep s). split; [apply in_map; assumption|].
+    unfold svc_srv, svc_files, sel_service; simpl. rewrite in_app_iff, !in_flat_map. destruct H as [[e [He [K H]]]|[f [p [Hf [K [Hp H]]]]]].
+    + left. exists (me_ep e). split; [|assumption]. apply in_map. apply filter_In. auto.
+    + right. exists p. split; [|assumption]. apply in_flat_map. exists (mf_fs f). split; [|assumption]. apply in_map. apply filter_In. auto.
+Qed.
+
+Lemma mounted_split_assigns m a :
+  In a (server_assigns (mounted m)) <-> In a (server_assigns (visible m)) \/ In a (server_assigns (hidden m)).
+Proof.
+  unfold mounted, visible, hidden. rewrite !in_sel_assigns. split.
+  - intros [s [Hs [[e [He [_ H]]]|[f [p [Hf [_ [Hp H]]]]]]]].
+    + destruct (ms_gen s && me_gen e) eqn:K; [left|right]; exists s; (split; [assumption|]); left; exists e; rewrite K; auto.
+    + destruct (ms_gen s && mf_gen f) eqn:K; [left|right]; exists s; (split; [assumption|]); right; exists f, p; rewrite K; auto.
+  - intros [[s [Hs H]]|[s [Hs H]]]; exists s; (split; [assumption|]);
+      (destruct H as [[e [He [_ H]]]|[f [p [Hf [_ [Hp H]]]]]]; [left; exists e; auto | right; exists f, p; auto]).
+Qed.
+
+Lemma mounted_split m o :
+  In o (server_ops (mounted m)) <-> In o (server_ops (visible m)) \/ In o (server_ops (hidden m)).
+Proof.
+  unfold server_ops. rewrite !in_map_iff. split.
+  - intros [a [E H]]. apply mounted_split_assigns in H. destruct H as [H|H]; [left|right]; exists a; auto.
+  - intros [[a [E H]]|[a [E H]]]; exists a; (split; [assumption|]); apply mounted_split_assigns; auto.
+Qed.
+
+Lemma mounted_split_keys m v k :
+  In (v, k) (map nkey (server_ops (mounted m))) <->
+  In (v, k) (map nkey (server_ops (visible m))) \/ In (v, k) (map nkey (server_ops (hidden m))).
+Proof.
+  rewrite !in_map_iff. split.
+  - intros [o [E H]]. apply mounted_split in H. destruct H as [H|H]; [left|right]; exists o; auto.
+  - intros [[o [E H]]|[o [E H]]]; exists o; (split; [assumption|]); apply mounted_split; auto.
+Qed.
+
+Definition unmarked (m : mdesign) :=
+  forall s, In s (md_services m) -> ms_gen s = true /\ (forall e, In e (ms_eps s) -> me_gen e = true) /\ (forall f, In f (ms_files s) -> mf_gen f = true).
+
+Lemma filter_all {A} (f : A -> bool) l : (forall x, In x l -> f x = true) -> filter f l = l.
+Proof. induction l as [|x l IH]; simpl; intro H; [reflexivity|]. rewrite (H x (or_introl eq_refl)), IH; [reflexivity|]. intros y Hy. apply H. right. assumption. Qed.
+
+Lemma unmarked_visible m : unmarked m -> visible m = mounted m.
+Proof.
+  intro U. unfold visible, mounted. f_equal. apply map_ext_in. intros s Hs. destruct (U s Hs) as [G [GE GF]].
+  unfold sel_service. rewrite G.
+  rewrite (filter_all (fun e => true && me_gen e) (ms_eps s)) by (intros e He; rewrite (GE e He); reflexivity).
+  rewrite (filter_all (fun _ : mendpoint => true) (ms_eps s)) by reflexivity.
+  rewrite (filter_all (fun f => true && mf_gen f) (ms_files s)) by (intros f Hf; rewrite (GF f Hf); reflexivity).
+  rewrite (filter_all (fun _ : mfile => true) (ms_files s)) by reflexivity.
+  reflexivity.
+Qed.
+
+(* the documents of a marked design list exactly the mounted operations that are not
+   marked (and whose verb has a case) *)
+Lemma mdoc3_keys m v k : no_wild_files (visible m) -> ~ uses (visible m) CONNECT ->
+  (In (v, k) (map okey (doc3_ops (visible m))) <->
+   In (v, k) (map nkey (server_ops (visible m)))) /\
+  (In (v, k) (map okey (doc3_ops (visible m))) -> In (v, k) (map nkey (server_ops (mounted m)))).
+Proof.
+  intros NW NC. split; [apply doc3_keys; assumption|]. intro H. apply mounted_split_keys. left. apply doc3_sub. assumption.
+Qed.
+
+Lemma mdoc3_sub m v k : In (v, k) (map okey (doc3_ops (visible m))) -> In (v, k) (map nkey (server_ops (mounted m))).
+Proof. intro H. apply mounted_split_keys. left. apply doc3_sub. assumption. Qed.
+
+Lemma mdoc2_sub m v k : In (v, k) (map okey (doc2_ops (visible m))) -> In (v, k) (map nkey (server_ops (mounted m))).
+Proof. intro H. apply mounted_split_keys. left. apply doc2_sub. assumption. Qed.
+
+(* a mounted operation missing from the OpenAPI 3 document is marked, or uses a verb
+   without a case *)
+Lemma mdoc3_missing m v k : no_wild_files (visible m) ->
+  In (v, k) (map nkey (server_ops (mounted m))) -> ~ In (v, k) (map okey (doc3_ops (visible m))) ->
+  In (v, k) (map nkey (server_ops (hidden m))) \/ v3_slot v = None.
+Proof.
+  intros NW H N. apply mounted_split_keys in H. destruct H as [H|H]; [|left; assumption].
+  right. destruct (v3_slot v) eqn:E; [|reflexivity]. exfalso. apply N. apply (doc3_keys_gen _ _ _ NW). split; [assumption | congruence].
+Qed.
+
+(* witness: two endpoints, the second marked; it is mounted and in neither document *)
+Definition w_marked : mdesign :=
+  mkmd [mkms [mkme (plain_ep GET [Lit 1]) true; mkme (plain_ep POST [Lit 2]) false] [] true] [].
+
+Lemma marked_example :
+  In (POST, [Lit 2]) (map nkey (server_ops (mounted w_marked))) /\
+  ~ In (POST, [Lit 2]) (map okey (doc3_ops (visible w_marked))) /\ ~ In (POST, [Lit 2]) (map okey (doc2_ops (visible w_marked))) /\
+  In (POST, [Lit 2]) (map nkey (server_ops (hidden w_marked))) /\
+  In (GET, [Lit 1]) (map okey (doc3_ops (visible w_marked))).
+Proof. split; [vm_compute; auto | split; [not_in | split; [not_in | split; vm_compute; auto]]]. Qed.
